@@ -1,5 +1,6 @@
 import Model.Compress
 import Model.CompressHeap
+import Model.CompressRecv
 import Driver.Util
 namespace Driver.C18
 open Util Compress
@@ -334,6 +335,152 @@ def flightStep (fl : Flight) (tok : String) : Flight × String :=
       | _ => (fl, "bad-step")
     else (fl, "bad-step")
 
+/-! ### receive paths of a connection (op `rx`) and histories of connections to one host (op `negoh`):
+    Model/CompressRecv.lean.
+
+    `rx <codec> <sup> S=<D> R=<D> <step>…` — D = `<flag>/<payload>/<decres>` (a frame as the peer sends it
+    and what an independent decoder of the configured codec says about its payload); steps:
+      `q=<D>` response to a waiting call · `e=<D>` EVENT on stream -1 · `s<n>=<D>` frame on stream n
+      (reserved: 0, negative; or a stream nobody waits on) · `p` ping
+    `negoh <codec> <step>…` — `o<sup>` a new connection while the node advertises <sup> · `x<k>` close -/
+
+structure FrameD where
+  flag    : UInt8
+  payload : List UInt8
+  dec     : Option (Except Unit (List UInt8))
+
+def parseFrameD (s : String) : Option FrameD :=
+  match s.splitOn "/" with
+  | [fl, p, d] => match fl.toNat?, parseBytes p, parseRes d with
+    | some fl, some p, some d => some { flag := UInt8.ofNat fl, payload := p, dec := d }
+    | _, _, _ => none
+  | _ => none
+
+/-- the codec of the connection as far as these frames exercise it: Decode answers what the op line
+    says for the payloads of the line, an error for anything else -/
+def framesCodec (ds : List FrameD) : Codec :=
+  { enc := fun x => .ok x,
+    dec := fun y => match ds.find? (fun d => d.payload == y) with
+      | some d => (match d.dec with | some r => r | none => .error ())
+      | none => .error () }
+
+def headOfD (d : FrameD) (stream : Int) (op : UInt8) : Head :=
+  { version := 0x84, flags := d.flag, stream := stream, op := op, length := Int.ofNat d.payload.length }
+
+def whyName : Why → String
+  | .read e => ((errName e).drop 4).toString
+  | .proto => "proto"
+  | .beyond => "beyond"
+
+structure RxSt where
+  comp   : Option Codec
+  closed : Bool
+
+def stepName (tok : String) : String × String :=
+  match tok.splitOn "=" with
+  | [a, b] => (a, b)
+  | _ => (tok, "")
+
+def rxStep (s : RxSt) (tok : String) : RxSt × String :=
+  if s.closed then (s, "gone")
+  else if tok == "p" then (s, "alive")
+  else
+    let (name, dstr) := stepName tok
+    match parseFrameD dstr with
+    | none => (s, "bad-step")
+    | some d =>
+      if name == "q" then
+        match recv .ret s.comp 4 32768 [1] (headOfD d 1 2) d.payload with
+        | .deliver _ (.ok b) => (s, s!"resp=ok:{canon b},alive")
+        | .deliver _ (.error e) => (s, s!"resp={errName e},alive")
+        | _ => (s, "model-unexpected")
+      else if name == "e" then
+        match recv .ret s.comp 4 32768 [] (headOfD d (-1) 12) d.payload with
+        | .event _ b => (s, s!"ev={toHex b},alive")
+        | .close w => ({ s with closed := true }, s!"ev=-,closed:{whyName w}")
+        | .crash => ({ s with closed := true }, "crash")
+        | _ => (s, "model-unexpected")
+      else if name.startsWith "s" then
+        match (name.drop 1).toString.toInt? with
+        | none => (s, "bad-step")
+        | some n =>
+          match recv .ret s.comp 4 32768 [] (headOfD d n 2) d.payload with
+          | .close w => ({ s with closed := true }, s!"closed:{whyName w}")
+          | .discard => (s, "alive")
+          | _ => (s, "model-unexpected")
+      else (s, "bad-step")
+
+def reqFlag (comp : Option Codec) (r : Req) : Nat :=
+  match (newFramer comp 4).buildReq r 1 [] with
+  | .ok w => (w.getD 1 0 &&& 1).toNat
+  | .error _ => 9
+
+def rxOp (codec sup sArg rArg : String) (steps : List String) : String :=
+  let strip := fun (pre s : String) => if s.startsWith pre then (s.drop pre.length).toString else s
+  match parseFrameD (strip "S=" sArg), parseFrameD (strip "R=" rArg) with
+  | some sD, some rD =>
+    let ds := sD :: rD :: steps.filterMap (fun t => parseFrameD (stepName t).2)
+    let cdc := framesCodec ds
+    let c : Option Named := if codec == "none" then none else some { name := codec, codec := cdc }
+    let supported := parseSupported sup
+    match handshake c 4 (fun _ => supported) (headOfD sD 0 6) sD.payload (headOfD rD 0 2) rD.payload with
+    | .error e => " ".intercalate (s!"dial={errName e}" :: steps.map (fun _ => "nodial"))
+    | .ok cc =>
+      let n := negotiate (c.map (·.name)) supported
+      let conf := c.map (·.codec)
+      let first := s!"dial=ok:opt={reqFlag conf .options}:startup={n.startupOpt.getD "-"}:sflag={reqFlag conf .startup}:kept={cc.isSome}"
+      first ++ (if steps.isEmpty then "" else " ") ++ runSteps rxStep { comp := cc.map (·.codec), closed := false } steps
+  | _, _ => "bad-op"
+
+def negohStep (name : Option String) (st : Option Supported) (tok : String) : Option Supported × String :=
+  match tok.toList with
+  | 'x' :: _ => (st, "ok")
+  | 'o' :: rest =>
+    let adv := parseSupported (String.ofList rest)
+    let p := connect .perConn name st adv
+    let idc : Codec := { enc := fun x => .ok x, dec := fun x => .ok x }
+    let comp := if p.2.nego.keep then some idc else none
+    (p.1, s!"opt={if p.2.optionsSent then 1 else 0},startup={p.2.nego.startupOpt.getD "-"},kept={p.2.nego.keep},qflag={reqFlag comp .register},body=ok")
+  | _ => (st, "bad-step")
+
+/-! op `negos <codec> <numconns> <step>…` — the same history through a real Session's host pool:
+    `a<sup>` the node advertises <sup> from now on · `s` the pool fills · `k<i>` the i-th live connection
+    is lost and the pool refills. Answer after `s` / `k`: the live connections' observations by class. -/
+
+structure NegosSt where
+  adv     : Supported
+  live    : List ConnObs
+  started : Bool
+
+def obsString (o : ConnObs) : String :=
+  let idc : Codec := { enc := fun x => .ok x, dec := fun x => .ok x }
+  let comp := if o.nego.keep then some idc else none
+  s!"opt={if o.optionsSent then 1 else 0},startup={o.nego.startupOpt.getD "-"},kept={o.nego.keep},qflag={reqFlag comp .register}"
+
+def negosShow (live : List ConnObs) : String :=
+  let yes := live.filter (·.nego.keep)
+  let no := live.filter (fun o => !o.nego.keep)
+  let cls := fun (l : List ConnObs) => match l with
+    | [] => ""
+    | o :: _ => s!":[{obsString o}]x{l.length}"
+  s!"live={live.length}{cls yes}{cls no}"
+
+def negosStep (name : Option String) (numConns : Nat) (s : NegosSt) (tok : String) : NegosSt × String :=
+  match tok.toList with
+  | 'a' :: rest => ({ s with adv := parseSupported (String.ofList rest) }, "ok")
+  | ['s'] =>
+    if s.started then (s, "bad-step") else
+    let live := runHist .perConn name none (List.replicate numConns s.adv)
+    ({ s with live := live, started := true }, negosShow live)
+  | 'k' :: rest =>
+    match (String.ofList rest).toNat? with
+    | some i =>
+      if !s.started || i ≥ s.live.length then (s, "bad-step") else
+      let live := s.live.eraseIdx i ++ runHist .perConn name none [s.adv]
+      ({ s with live := live }, negosShow live)
+    | none => (s, "bad-step")
+  | _ => (s, "bad-step")
+
 def step (_ : Unit) (ws : List String) : Unit × String :=
   ((), match ws with
   | ["req", kind, comp, ver, extra, stream, body, encres, _, _] =>
@@ -416,6 +563,13 @@ def step (_ : Unit) (ws : List String) : Unit × String :=
       | .ok _ => "ok"
       | .error e => errName e
     s!"kept={cc.isSome} startup={n.startupOpt.getD "-"} qflag={qflag} cresp={cresp} alive=true"
+  | "rx" :: codec :: sup :: sArg :: rArg :: steps => rxOp codec sup sArg rArg steps
+  | "negoh" :: codec :: steps =>
+    runSteps (negohStep (if codec == "none" then none else some codec)) none steps
+  | "negos" :: codec :: nc :: steps =>
+    match nc.toNat? with
+    | some n => runSteps (negosStep (if codec == "none" then none else some codec) n) { adv := [], live := [], started := false } steps
+    | none => "bad-op"
   | "held" :: _ :: toks => runSteps heldStep St.init toks
   | "flight" :: _ :: _ :: toks => runSteps flightStep { st := St.init, reqs := [] } toks
   | _ => "bad-op")
